@@ -303,3 +303,232 @@ Proof.
     apply (ssorted_app_rel each_rel _ _ a b Hss Hain Hb2).
 Qed.
 End Each.
+
+(* ======================================================================== *)
+(* FILL                                                                      *)
+(* ======================================================================== *)
+Definition fill_rel (a b : info) : Prop := cnt b < cnt a \/ (cnt b = cnt a /\ cap b <= cap a).
+
+Lemma fill_sorted_strong l : Sorted (ngt fill_less) l -> StronglySorted fill_rel l.
+Proof.
+  intro H. apply Sorted_StronglySorted.
+  - intros a b c. unfold fill_rel. lia.
+  - eapply Sorted_impl; [|exact H]. intros a b. unfold ngt, fill_less, fill_rel.
+    destruct (Z.eqb_spec (cnt b) (cnt a)); lia.
+Qed.
+
+Definition fill_val (need : Z) (x : info) : Z := Z.max (need - cnt x) 0.
+Definition fill_step (need : Z) (st : plan * Z) (x : info) : plan * Z :=
+  let d' := madd (fst st) (name x) (fill_val need x) in (d', snd st + mget d' (name x)).
+Definition fill_fold (need : Z) (l : list info) (st : plan * Z) : plan * Z :=
+  fold_left (fill_step need) l st.
+
+Lemma fill_loop_spec need : forall l lim dep todo, 1 <= lim ->
+  (countb (fillable need) l < lim -> fill_loop l need lim dep todo = Err EInsufficientResource) /\
+  (lim <= countb (fillable need) l -> exists l1 l2, l = l1 ++ l2 /\ countb (fillable need) l1 = lim /\
+     let r := fill_fold need (filter (fillable need) l1) (dep, todo) in
+     fill_loop l need lim dep todo = if snd r =? 0 then AlreadyFilled (fst r) else Ok (fst r)).
+Proof.
+  induction l as [|x t IH]; intros lim dep todo Hlim.
+  - split; [reflexivity|]. unfold countb; simpl. lia.
+  - rewrite countb_cons. cbn [fill_loop]. destruct (fillable need x) eqn:Ex.
+    + destruct (Z.eqb_spec (lim - 1) 0) as [E1|E1].
+      * split; [pose proof (countb_nonneg (fillable need) t); lia|].
+        intros _. exists [x], t. split; [reflexivity|]. split.
+        -- rewrite countb_cons, Ex. unfold countb; simpl. lia.
+        -- cbn [filter]. rewrite Ex. reflexivity.
+      * destruct (IH (lim - 1) (madd dep (name x) (Z.max (need - cnt x) 0))
+                     (todo + mget (madd dep (name x) (Z.max (need - cnt x) 0)) (name x))) as [I1 I2]; [lia|].
+        split.
+        -- intro Hc. apply I1. lia.
+        -- intro Hc. destruct I2 as (l1 & l2 & -> & Hcnt & Hr); [lia|].
+           exists (x :: l1), l2. split; [reflexivity|]. split.
+           ++ rewrite countb_cons, Ex. lia.
+           ++ cbn [filter]. rewrite Ex. exact Hr.
+    + destruct (IH lim dep todo Hlim) as [I1 I2]. split.
+      * intro Hc. apply I1. lia.
+      * intro Hc. destruct I2 as (l1 & l2 & -> & Hcnt & Hr); [lia|].
+        exists (x :: l1), l2. split; [reflexivity|]. split.
+        -- rewrite countb_cons, Ex. lia.
+        -- cbn [filter]. rewrite Ex. exact Hr.
+Qed.
+
+Lemma fill_fold_spec need l : forall dep todo,
+  NoDup (names l) -> NoDup (map fst dep) -> (forall x, In x l -> mhas dep (name x) = false) ->
+  let r := fill_fold need l (dep, todo) in
+  NoDup (map fst (fst r)) /\ length (fst r) = (length dep + length l)%nat /\
+  (forall k, mhas (fst r) k = mhas dep k || existsb (String.eqb k) (names l)) /\
+  (forall x, In x l -> mget (fst r) (name x) = fill_val need x) /\
+  (forall k, ~ In k (names l) -> mget (fst r) k = mget dep k) /\
+  snd r = todo + plan_sum (fst r) - plan_sum dep.
+Proof.
+  induction l as [|x t IH]; intros dep todo Hnd Hdep Hdis; cbv zeta.
+  - simpl. repeat split; auto; intros; try rewrite orb_false_r; auto; try tauto; lia.
+  - simpl in Hnd. inversion Hnd as [|? ? Hx Ht]; subst.
+    assert (Hfresh : mhas dep (name x) = false) by (apply Hdis; left; reflexivity).
+    set (dep' := madd dep (name x) (fill_val need x)).
+    change (fill_fold need (x :: t) (dep, todo)) with (fill_fold need t (dep', todo + mget dep' (name x))).
+    destruct (IH dep' (todo + mget dep' (name x))) as (I1 & I2 & I3 & I4 & I5 & I6); auto.
+    + apply nodup_keys_mset. exact Hdep.
+    + intros y Hy. unfold dep'. rewrite mhas_madd. rewrite Hdis by (right; exact Hy).
+      rewrite orb_false_r. apply seqb_neq. intro E. apply Hx. rewrite E. apply in_names. exact Hy.
+    + assert (Hgx : mget dep' (name x) = fill_val need x).
+      { unfold dep'. rewrite mget_madd_same. rewrite (mhas_false_mget _ _ Hfresh). lia. }
+      split; [exact I1|]. split; [|split; [|split; [|split]]].
+      * eapply eq_trans; [exact I2|]. unfold dep', madd. rewrite length_mset, Hfresh. simpl. lia.
+      * intro k. rewrite I3. unfold dep'. rewrite mhas_madd. simpl. rewrite (seqb_sym k (name x)).
+        destruct (String.eqb (name x) k), (mhas dep k); reflexivity.
+      * intros y [->|Hy]; [|apply I4; exact Hy].
+        rewrite I5; [exact Hgx|exact Hx].
+      * intros k Hk. simpl in Hk. rewrite I5 by tauto.
+        unfold dep'. apply mget_madd_other. tauto.
+      * eapply eq_trans; [exact I6|]. rewrite Hgx.
+        assert (Hps : plan_sum dep' = plan_sum dep + fill_val need x) by (unfold dep'; apply plan_sum_madd).
+        rewrite Hps. unfold plan in *. lia.
+Qed.
+
+Lemma fillable_iff need x : fillable need x = (need <=? cnt x + cap x).
+Proof. unfold fillable. destruct (Z.leb_spec need (cnt x + cap x)); lia. Qed.
+
+Section FillS.
+Variables (infos sorted : list info) (need limit : Z).
+Hypothesis Hvalid : valid_infos infos.
+Hypothesis Hperm : Permutation infos sorted.
+Hypothesis Hsorted : Sorted (ngt fill_less) sorted.
+Hypothesis Hneed : 0 < need.
+Hypothesis Hlimit : 0 <= limit.
+
+Let limit' := each_limit infos limit.
+
+Definition fill_result : result :=
+  if Z.of_nat (length infos) <? limit' then Err EInsufficientResource
+  else fill_from sorted need limit'.
+
+Lemma fill_sorted_nodup : NoDup (names sorted).
+Proof. destruct Hvalid as [Hnd _]. eapply nodup_names_perm; eauto. Qed.
+
+Lemma fill_count_eq :
+  countb (fun x => need <=? cnt x + cap x) infos = countb (fillable need) sorted.
+Proof.
+  rewrite (countb_perm _ _ _ Hperm). apply countb_ext. intros x _. symmetry. apply fillable_iff.
+Qed.
+
+Lemma fill_limit_cases : (limit' = 0 /\ infos = []) \/ 1 <= limit'.
+Proof.
+  unfold limit', each_limit. destruct (Z.eqb_spec limit 0).
+  - destruct infos; [left; auto|right; simpl; lia].
+  - right. lia.
+Qed.
+
+(* what a successful run looks like *)
+Lemma fill_from_plan r pl : fill_from sorted need limit' = r -> is_plan r pl ->
+  1 <= limit' /\ exists l1 l2, sorted = l1 ++ l2 /\ countb (fillable need) l1 = limit' /\
+    let sel := filter (fillable need) l1 in
+    pl = fst (fill_fold need sel ([], 0)) /\
+    (r = AlreadyFilled pl -> snd (fill_fold need sel ([], 0)) = 0).
+Proof.
+  intros Hr Hpl. unfold fill_from in Hr.
+  destruct fill_limit_cases as [[E0 En]|H1].
+  - exfalso. rewrite En in Hperm. apply Permutation_nil in Hperm. rewrite Hperm in Hr.
+    simpl in Hr. subst r. destruct Hpl; discriminate.
+  - split; [exact H1|].
+    destruct (fill_loop_spec need sorted limit' [] 0 H1) as [I1 I2].
+    destruct (Z.lt_ge_cases (countb (fillable need) sorted) limit') as [Hlt|Hge].
+    + rewrite (I1 Hlt) in Hr. subst r. destruct Hpl; discriminate.
+    + destruct (I2 Hge) as (l1 & l2 & E & Hc & Hres). exists l1, l2. split; [exact E|]. split; [exact Hc|].
+      cbv zeta in *. rewrite Hres in Hr. subst r. unfold is_plan in Hpl. revert Hpl.
+      match goal with |- context [if ?c then _ else _] => destruct c eqn:Ez end;
+        intros [Hpl|Hpl]; inversion Hpl; subst;
+        (split; [reflexivity|first [intros _; apply Z.eqb_eq; exact Ez | intro Hd; discriminate Hd]]).
+Qed.
+
+Lemma fill_C01 r pl : fill_from sorted need limit' = r -> is_plan r pl ->
+  C01_spec Fill need limit infos pl /\ (r = AlreadyFilled pl -> plan_sum pl = 0).
+Proof.
+  intros Hr Hpl. destruct (fill_from_plan r pl Hr Hpl) as (H1 & l1 & l2 & E & Hc & Hp & Haf).
+  cbv zeta in *. set (sel := filter (fillable need) l1) in *.
+  pose proof fill_sorted_nodup as Hnd. rewrite E, names_app in Hnd.
+  assert (Hnd1 : NoDup (names l1)) by (eapply nodup_app_l; eauto).
+  assert (Hsel_sub : forall x, In x sel -> In x l1 /\ fillable need x = true) by (intros x Hx; apply filter_In in Hx; exact Hx).
+  assert (Hnds : NoDup (names sel)).
+  { unfold sel. clear -Hnd1. induction l1 as [|h t IH]; simpl in *; [constructor|].
+    inversion Hnd1; subst. destruct (fillable need h); simpl; auto. constructor; auto.
+    intro Hin. apply H1. unfold names in *. apply in_map_iff in Hin. destruct Hin as (y & Ey & Hy).
+    apply filter_In in Hy. apply in_map_iff. exists y. tauto. }
+  destruct (fill_fold_spec need sel [] 0 Hnds) as (F1 & F2 & F3 & F4 & F5 & F6); simpl; auto; [constructor|].
+  rewrite <- Hp in *.
+  assert (Hin_sorted : forall x, In x sel -> In x sorted).
+  { intros x Hx. rewrite E. apply in_or_app. left. apply Hsel_sub. exact Hx. }
+  assert (Hsel_name : forall x, In x infos -> existsb (String.eqb (name x)) (names sel) = true -> In x sel).
+  { intros x Hx Hn. apply existsb_eqb_in in Hn. unfold names in Hn. apply in_map_iff in Hn.
+    destruct Hn as (y & Ey & Hy). assert (x = y); [|subst; exact Hy].
+    apply (nodup_names_inj sorted); auto using fill_sorted_nodup.
+    eapply Permutation_in; eauto. }
+  split.
+  - unfold C01_spec. split; [exact F1|]. split; [|split; [|split]].
+    + intros k Hk. rewrite F3 in Hk. simpl in Hk. apply existsb_eqb_in in Hk.
+      eapply Permutation_in; [symmetry; apply perm_names; exact Hperm|].
+      unfold names in *. apply in_map_iff in Hk. destruct Hk as (y & <- & Hy).
+      apply in_map. apply Hin_sorted. exact Hy.
+    + intros x Hx. destruct Hvalid as [_ Hv]. rewrite Forall_forall in Hv. specialize (Hv x Hx).
+      destruct (existsb (String.eqb (name x)) (names sel)) eqn:E2.
+      * assert (Hs : In x sel) by (apply Hsel_name; auto).
+        rewrite (F4 x Hs). destruct (Hsel_sub x Hs) as [_ Hf]. unfold fillable in Hf. unfold fill_val. lia.
+      * rewrite F5; [simpl; lia|]. intro Hin. apply existsb_eqb_in in Hin. congruence.
+    + split.
+      * rewrite F2. simpl. fold limit'. rewrite <- Hc. unfold countb. reflexivity.
+      * intros x Hx Hh. rewrite F3 in Hh. simpl in Hh.
+        assert (Hs : In x sel) by (apply Hsel_name; auto).
+        unfold fin. rewrite (F4 x Hs). unfold fill_val. lia.
+    + discriminate.
+  - intro Hraf. specialize (Haf Hraf). rewrite F6 in Haf. unfold plan_sum at 2 in Haf. simpl in Haf.
+    unfold sumZ in Haf. simpl in Haf. lia.
+Qed.
+
+Lemma fill_C02 :
+  (feasible Fill need limit infos = true -> exists pl, is_plan fill_result pl) /\
+  (feasible Fill need limit infos = false -> fill_result = Err EInsufficientResource).
+Proof.
+  unfold fill_result, feasible. fold limit'. rewrite fill_count_eq. split.
+  - rewrite !andb_true_iff, !Z.leb_le. intros ((H1 & H2) & H3).
+    destruct (Z.ltb_spec (Z.of_nat (length infos)) limit'); [lia|].
+    unfold fill_from. destruct (fill_loop_spec need sorted limit' [] 0 H2) as [_ I2].
+    destruct (I2 H3) as (l1 & l2 & _ & _ & Hr). cbv zeta in Hr. rewrite Hr.
+    destruct (_ =? 0); eexists; [right|left]; reflexivity.
+  - intro Hf. destruct (Z.ltb_spec (Z.of_nat (length infos)) limit') as [|Hge]; [reflexivity|].
+    unfold fill_from. destruct fill_limit_cases as [[E0 En]|H1].
+    + rewrite En in Hperm. apply Permutation_nil in Hperm. rewrite Hperm. reflexivity.
+    + destruct (fill_loop_spec need sorted limit' [] 0 H1) as [I1 _]. apply I1.
+      rewrite !andb_false_iff, !Z.leb_gt in Hf. lia.
+Qed.
+
+Lemma fill_C03 r pl : fill_from sorted need limit' = r -> is_plan r pl -> C03_spec Fill need limit infos pl.
+Proof.
+  intros Hr Hpl. destruct (fill_from_plan r pl Hr Hpl) as (H1 & l1 & l2 & E & Hc & Hp & _).
+  cbv zeta in *. set (sel := filter (fillable need) l1) in *.
+  pose proof fill_sorted_nodup as Hnd. rewrite E, names_app in Hnd.
+  assert (Hnds : NoDup (names sel)).
+  { apply nodup_app_l in Hnd. unfold sel. clear -Hnd. induction l1 as [|h t IH]; simpl in *; [constructor|].
+    inversion Hnd; subst. destruct (fillable need h); simpl; auto. constructor; auto.
+    intro Hin. apply H1. unfold names in *. apply in_map_iff in Hin. destruct Hin as (y & Ey & Hy).
+    apply filter_In in Hy. apply in_map_iff. exists y. tauto. }
+  destruct (fill_fold_spec need sel [] 0 Hnds) as (F1 & F2 & F3 & F4 & F5 & F6); simpl; auto; [constructor|].
+  rewrite <- Hp in *.
+  intros a b Ha Hb. cbv zeta. intros Hsa Hsb Hfb.
+  rewrite F3 in Hsa, Hsb. simpl in Hsa, Hsb.
+  assert (Has : In a sel).
+  { apply existsb_eqb_in in Hsa. unfold names in Hsa. apply in_map_iff in Hsa.
+    destruct Hsa as (y & Ey & Hy). assert (a = y); [|subst; exact Hy].
+    apply (nodup_names_inj sorted); auto using fill_sorted_nodup.
+    - eapply Permutation_in; eauto.
+    - rewrite E. apply in_or_app. left. apply filter_In in Hy. tauto. }
+  assert (Ha1 : In a l1) by (apply filter_In in Has; tauto).
+  assert (Hbs : In b sorted) by (eapply Permutation_in; eauto).
+  rewrite E in Hbs. apply in_app_or in Hbs. destruct Hbs as [Hb1|Hb2].
+  - exfalso. assert (existsb (String.eqb (name b)) (names sel) = true); [|congruence].
+    apply existsb_eqb_in. apply in_names. apply filter_In. split; [exact Hb1|].
+    rewrite fillable_iff. lia.
+  - pose proof (fill_sorted_strong _ Hsorted) as Hss. rewrite E in Hss.
+    apply (ssorted_app_rel fill_rel _ _ a b Hss Ha1 Hb2).
+Qed.
+End FillS.
